@@ -215,3 +215,30 @@ Theorem C32_empty_measurement_unchecked :
   end.
 Proof. exact empty_measurement_unchecked. Qed.
 Print Assumptions C32_empty_measurement_unchecked.
+
+(* ---- non-vacuity of the C32 statements ---- *)
+
+(* a line-protocol request of a caller allowed only mydb.cpu: one permission check, one buffer
+   write, status 204; the same request against db3 is refused with no write *)
+Example C32_live_nonvacuous :
+  let p := {| p_meas := b_cpu; p_tags := [(k_udb, b_otherdb)]; p_fields := [(b_v, GInt 2)]; p_ts := t0 |} in
+  match front v_current idsan 0 false [(b_mydb, b_cpu)] (HLP LPSimple [] b_mydb PUs [] [p]) with
+  | Some f => f_status f = 204 /\ f_db f = b_mydb /\ f_checked f = [b_cpu] /\ List.length (f_writes f) = 1%nat
+  | None => False
+  end /\
+  match front v_current idsan 0 false [(b_mydb, b_cpu)] (HLP LPv1 b_mydb b_otherdb PUs [] [p]) with
+  | Some f => f_status f = 403 /\ f_db f = b_otherdb /\ f_writes f = []
+  | None => False
+  end.
+Proof. vm_compute. repeat split; reflexivity. Qed.
+
+(* the raw-columnar guard is satisfiable: {m: "cpu", columns: {time: [t0], v: [7]}} *)
+Example C05_raw_guard_satisfiable : forall v,
+  let top := [(k_m, GStr b_cpu); (k_columns, GMap [(k_time, GArr [GInt t0]); (b_v, GArr [GInt 7])])] in
+  bw_guard v idsan (BRaw b_mydb top) /\ live_rows idsan 0 (BRaw b_mydb top) <> None.
+Proof.
+  intros v top. split; [|vm_compute; discriminate].
+  cbn [bw_guard]. unfold raw_guard. split; [reflexivity|]. split.
+  - exists [(k_time, GArr [GInt t0]); (b_v, GArr [GInt 7])], [GInt t0]. repeat split; try reflexivity. discriminate.
+  - left. exists b_cpu. reflexivity.
+Qed.
